@@ -380,7 +380,7 @@ def run(ctx):
         seg_stats(ctx, cps)
 
     # --- exact landscapes and their combinations
-    for i in range(ctx.n(260, 4000)):
+    for i in range(ctx.n(1000, 12000)):
         diag_p = 0.5 if r.random() < 0.1 else 0.0
         mode, scale, dgms = gen_family(ctx, 3, diag_p)
         Ls = [mk_exact(d) for d in dgms]
@@ -393,7 +393,7 @@ def run(ctx):
         add_pnorm_jobs("exact:" + kind, L, cps, i)
 
     # --- grid landscapes and their combinations
-    for i in range(ctx.n(160, 2500)):
+    for i in range(ctx.n(600, 7000)):
         mode, scale, dgms = gen_family(ctx, 3)
         lo = min(b[0] for d in dgms for b in d)
         hi = max(b[1] for d in dgms for b in d)
@@ -413,7 +413,7 @@ def run(ctx):
         add_pnorm_jobs("grid:" + kind, A, cps, i, grid=(grid, vals))
 
     # --- _p_norm directly on synthetic piecewise-linear functions
-    for i in range(ctx.n(260, 4000)):
+    for i in range(ctx.n(1000, 12000)):
         cps = gen_synthetic(ctx)
         seg_stats(ctx, cps)
         p = gen_p_nat(ctx, i)
@@ -427,7 +427,7 @@ def run(ctx):
         jobs.append(("pl.sup %s" % enc(cps), "sup", {"src": "synthetic", "cps": cps, "code": canon(call(L.sup_norm))}))
 
     # --- malformed / edge stream: argument validation of base.py, p = 0, vertical segments
-    for i in range(ctx.n(60, 600)):
+    for i in range(ctx.n(200, 1500)):
         cps = gen_synthetic(ctx)
         p = r.choice([-2.0, -1.5, -1.0000001, -0.5, -1e-9, 0.0, 0.5, 0.999, -3.0, 0.25])
         if r.random() < 0.25:                      # a vertical segment (Python floats: ZeroDivisionError)
@@ -600,7 +600,7 @@ def perturb_dgm(r, d, scale, delta):
 
 def laws(ctx):
     r = ctx.rng
-    for i in range(ctx.n(220, 3500)):
+    for i in range(ctx.n(800, 9000)):
         mode, scale, dgms = gen_family(ctx, 3)
         perturb = r.random() < 0.6
         if perturb:
@@ -638,7 +638,7 @@ def laws(ctx):
                 return
     # oracle stream: the real code against adaptive quadrature (natural and real p)
     ex, ap, aux = _mods()
-    for i in range(ctx.n(120, 1500)):
+    for i in range(ctx.n(400, 4000)):
         if r.random() < 0.5:
             cps = gen_synthetic(ctx)
         else:
